@@ -4,7 +4,7 @@ with what is actually built; properties listed in BUILT are claimed, the others 
 with the reason 'check not built yet' (a temporary state while the harness is under construction)."""
 import json, subprocess
 
-BUILT = ["C01", "C02", "C04", "C05", "C06", "C13", "C14"]
+BUILT = ["C01", "C02", "C04", "C05", "C06", "C09", "C13", "C14", "C15"]
 
 HOOK_COMMITS = ["d149e00"]
 
@@ -33,6 +33,14 @@ P = {
    technique="metamorphic property-based testing (colour mirror, side-to-move negation, irrelevance of non-placement fields, bound) with an exhaustive single-piece basis",
    text="The evaluation is a sum over pieces blended by a phase weight, so symmetry on the complete single-piece basis at every phase weight (exhaustive, 18,400 cases) plus random whole placements up to nine queens a side decides the relations; the bound is checked on every case.",
    note="Trusted base: the oracle's mirror(); no reference evaluation is needed (relations only)."),
+ "C09": dict(level="exploration", design="DESIGN.md §5 C09",
+   technique="property-based testing of the time policy against the stated bounds in exact terms (generated clocks incl. extremes + exhaustive grid around the safety margin), metamorphic independence from the opponent's clock, generated `go` token lists for the parser, and black-box latency measurement of the real binary against the engine's own plan",
+   text="The planned slice is a pure function: 600k generated clock settings (12M thorough) plus the complete grid around the 100 ms margin are checked against the stated upper bounds and for independence from the other side's clock; the `go` parser is checked on generated token orders with ignorable tokens. The measured go->bestmove delay of the real binary is compared with the plan (tolerance 500 ms, three serial re-measurements before a violation).",
+   note="Known finding F6 (increment branch may exceed the remaining clock) is excluded by its exact signature and reported as KNOWN-FINDING; any other excess is a violation. Timing part samples OS schedules."),
+ "C15": dict(level="exploration", design="DESIGN.md §5 C15",
+   technique="property-based testing and fuzzing of the FEN loader: arbitrary and grammar-shaped strings, character-level mutation of valid FENs, round trip through an independent strict FEN reader/writer, black-box runs of the CLI front end; libFuzzer target in the thorough tier",
+   text="Totality (never panics) is checked on arbitrary unicode strings, six-field-shaped garbage and mutated valid FENs; faithfulness on every string the independent strict reader classifies as the well-formed FEN of a legal position (incl. counters up to 200 / 9000); the CLI error path is run as a real process on generated rejected strings incl. long multi-byte ones.",
+   note="Trusted base: the strict FEN reader/writer in harness/src/oracle.rs. FENs with counters beyond 200/9000 or non-standard castling field order carry no acceptance requirement."),
  "C13": dict(level="exploration", design="DESIGN.md §5 C13",
    technique="property-based differential testing of capture-only generation along chains (tree to depth 3 plus one deep line) against the oracle's legal capturing moves",
    text="Capture-only generation is applied recursively the way quiescence follows it, from roots reached by the engine's full generation (often right after a double step), with the oracle tracking the true position: move multiset = legal captures (en passant and the four capture-promotions included), successors equal the oracle's positions incl. the key delta.",
